@@ -25,7 +25,7 @@ class C02(Check):
         "map entries are compared in the datum's iteration order (the only order the statement lets the writer use)",
     ]
     required_labels = ["s:union", "s:ref", "s:float", "s:double", "s:fixed", "s:enum", "d:varint10", "d:coll>=64", "d:str>=64B", "d:nan"]
-    quick = (2500, 1)
+    quick = (5000, 1)
     thorough = (12000, 16)
 
     def __init__(self):
